@@ -52,8 +52,7 @@ func c10SchemaCases(tier string, emit func(interface{})) {
 
 var c10Enum = map[string]int64{"zero": 0, "one": 1, "five": 5, "big": 2147483647}
 var c10Bits = map[string]uint{"x": 0, "y": 1, "z": 5, "top": 31}
-// the base itself is accepted by the library (known finding of C05: identityref/the-base-itself); conversion of its name is exact
-var c10Idents = map[string]bool{"id-a": true, "id-b": true, "base-id": true}
+var c10Idents = map[string]bool{"id-a": true, "id-b": true}
 
 func c10BitMask() uint64 {
 	var m uint64
